@@ -34,6 +34,7 @@ pub mod c13;
 mod c17;
 mod c18;
 mod c19;
+mod hs;
 
 use util::*;
 
@@ -76,9 +77,30 @@ fn run_c15(out: &mut Out, tier: &str, rng: &mut Rng) {
     out.rule.push_str("; consumer side: the real NetworkAuthority with hydraulic units whose timeouts are absent / expired / far away handles every accepted motion command (frames to every unit at acceptance and on the following cycles)");
 }
 
+fn run_c14(out: &mut Out, tier: &str, rng: &mut Rng) {
+    c14::run(out, tier, rng);
+    hs::run(out, tier, rng);
+}
+
+fn run_c18(out: &mut Out, tier: &str, rng: &mut Rng) {
+    c18::run(out, tier, rng);
+    hs::run(out, tier, rng);
+}
+
+fn run_c20(out: &mut Out, tier: &str, rng: &mut Rng) {
+    authgen::run_c20(out, tier, rng);
+    authgen::run_request_pages(out, tier, rng);
+}
+
+fn run_c10(out: &mut Out, tier: &str, rng: &mut Rng) {
+    authgen::run_c10(out, tier, rng);
+    authgen::run_c10_foreign(out, tier, rng);
+}
+
 fn run_c06(out: &mut Out, tier: &str, rng: &mut Rng) {
     drv::run_c06(out, tier, rng);
     authgen::run_c06_auth(out, tier, rng);
+    authgen::run_c06_requests(out, tier, rng);
     out.rule.push_str("; authority level: raw can_frames with every DLC 0..8 injected into the real NetworkAuthority::recv on the emulated bus, followed by a cycle and commands whose frames must still appear");
 }
 
@@ -104,21 +126,21 @@ fn main() {
         "C03" => c03::run,
         "C04" => c04::run,
         "C05" => c05::run,
-        "C14" => c14::run,
+        "C14" => run_c14,
         "C06" => run_c06,
         "C07" => c07::run,
         "C08" => run_c08,
         "C09" => c09::run,
-        "C10" => authgen::run_c10,
+        "C10" => run_c10,
         "C11" => run_c11,
         "C19" => c19::run,
-        "C20" => authgen::run_c20,
+        "C20" => run_c20,
         "C12" => run_c12,
         "C13" => c13::run,
         "C15" => run_c15,
         "C16" => c16::run,
         "C17" => c17::run,
-        "C18" => c18::run,
+        "C18" => run_c18,
         _ => {
             eprintln!("unknown property {}", prop);
             std::process::exit(2);
